@@ -144,12 +144,15 @@ def gen_case(r):
     def held():
         return set(p for (_, p, _) in live)
 
+    # LLGR stale periods are outside the property's quantifier (S16 is kept as a corpus case and a
+    # recorded finding); the generated stream does not use the op
+    llgr_ok = False
     pre = [ann() for _ in range(r.pick([0, 0, 1, 2, 4]))]
     ops = []
     n = r.pick([5, 10, 20, 40, 60])
     while len(ops) < n:
         kind = r.weighted([("ann", 30), ("wd", 14), ("deliver", 20), ("flush", 12), ("down", 4), ("reset", 6),
-                           ("reuse", 10), ("window", 6)])
+                           ("reuse", 10), ("window", 6), ("llgr", 1 if llgr_ok else 0)])
         if kind == "ann":
             ops.append(ann())
         elif kind == "wd":
@@ -165,6 +168,10 @@ def gen_case(r):
             ops.append("(down %d)" % s)
         elif kind == "reset":
             ops.append("(reset %s)" % r.pick(["none"] + [str(i) for i in range(len(pols))]))
+        elif kind == "llgr":
+            peers = [i for i, x in enumerate(srcs) if x.startswith("(peer")]
+            if peers:
+                ops.append("(llgr %d)" % r.pick(peers))
         elif kind == "reuse":
             # remove the last path of a prefix and announce a prefix the RIB does not hold (it gets the
             # freed id when both live in the same shard) before the next flush
